@@ -12,6 +12,9 @@ sys.path.insert(0, os.path.join(VERIF, "lib"))
 sys.path.insert(0, os.path.join(VERIF, "checks"))
 
 import build  # noqa: E402
+import batchrun  # noqa: E402
+import mtindep  # noqa: E402
+import optrun  # noqa: E402
 
 
 def main():
@@ -19,9 +22,9 @@ def main():
     LINK_DL = ["-ldl"]
     jobs = []
     for tag in ("gasan", "plain", "casan"):
-        jobs.append(lambda tag=tag: build.build_exe(tag, ["optdrv.cpp"], build.OPTIONS_SRCS))
+        jobs.append(lambda tag=tag: optrun.optdrv(tag))
         jobs.append(lambda tag=tag: build.build_exe(tag, ["fvmodel.cpp"]))
-        jobs.append(lambda tag=tag: build.build_exe(tag, ["strdrv.cpp"]))
+        jobs.append(lambda tag=tag: batchrun.strdrv(tag))
         jobs.append(lambda tag=tag: build.build_exe(tag, ["ownhist.cpp"]))
         jobs.append(lambda tag=tag: build.build_exe(tag, ["hashgrid.cpp"]))
         jobs.append(lambda tag=tag: build.build_exe(tag, ["iteradapt.cpp"]))
@@ -29,7 +32,7 @@ def main():
     for tag in ("plain", "gtsan", "cplain", "ctsan"):
         jobs.append(lambda tag=tag: build.build_exe(tag, ["mtlog.cpp"]))
     for tag in ("gtsan", "plain", "gasan"):
-        jobs.append(lambda tag=tag: build.build_exe(tag, ["mtindep.cpp"], build.OPTIONS_SRCS, link=LINK_DL))
+        jobs.append(lambda tag=tag: mtindep._exe(tag))
     jobs.append(lambda: build.build_exe("plain", ["envdl.cpp"], ["src/env/get.cpp"],
                                         link=["-Wl,--wrap=dlopen,--wrap=dlclose,--wrap=dlsym,--wrap=dlerror", "-rdynamic", "-ldl"]))
     import c19
